@@ -270,13 +270,17 @@ CleanR(shapes) ==
 \* ---- the whole pipeline on the current doc / cfg
 ProfKeys(inst) == OpKeys(inst) \cup (IF cfg.mode = "classes" THEN ToSet(cfg.targets) ELSE {})
 ProfsOf(inst) == [k \in ProfKeys(inst) |-> ProfOf(inst, k)]
-OutFrom(inst, profs) ==
-  LET keys == DOMAIN profs
-      featureless == {k \in keys : DOMAIN profs[k] = {}}
-      \* the profiler drops every feature-less class when remove_empty_shapes is on (and does not clean
-      \* the references to it: it compares class keys with shape names)
-      kept == IF cfg.removeEmpty THEN keys \ featureless ELSE keys
-      raw == [k \in kept |-> IF k \in featureless THEN {} ELSE ShapeOf(profs[k], Cardinality(OpInst(inst, k)))]
+\* ClassProfiler._clean_class_profile: with remove_empty_shapes, classes without features are dropped and the references
+\* to them are deleted from the other classes' profiles, until no feature-less class is left
+RECURSIVE CleanProfiles(_)
+CleanProfiles(profs) ==
+  LET gone == {k \in DOMAIN profs : DOMAIN profs[k] = {}}
+  IN IF gone = {} THEN profs
+     ELSE CleanProfiles([k \in DOMAIN profs \ gone |->
+             [q \in {x \in DOMAIN profs[k] : ~(IsShape(x[3]) /\ KeyOfShape(x[3]) \in gone)} |-> profs[k][q]]])
+OutFrom(inst, profs0) ==
+  LET profs == IF cfg.removeEmpty THEN CleanProfiles(profs0) ELSE profs0
+      raw == [k \in DOMAIN profs |-> IF DOMAIN profs[k] = {} THEN {} ELSE ShapeOf(profs[k], Cardinality(OpInst(inst, k)))]
   IN CleanR(raw)
 OpOut == OutFrom(TrackF, ProfsOf(TrackF))
 OpCrashed(out) == \E k \in DOMAIN out : CRASH \in out[k]
